@@ -8,6 +8,7 @@ set -u
 export GOFLAGS=-mod=mod GOPROXY=off GOSUMDB=off GOTOOLCHAIN=local
 unset GOWORK
 cd /verif
+VC="${VC:-./bin/verifcheck}"
 n="$1"; d="seeded/$n"; prop="${n%%-*}"
 [ -f "$d/patch.diff" ] || { echo "$n: no patch"; exit 2; }
 wt="/tmp/wt-seed-$n-$$"; ev="/tmp/ev-seed-$n-$$"; mkdir -p "$ev"
@@ -27,16 +28,16 @@ while read -r id pats; do
       esac
     done
   done
-done < <(./bin/verifcheck -list-quick)
+done < <("$VC" -list-quick)
 sel=$(echo $sel | tr ' ' '\n' | sort -u | tr '\n' ' ')
-claimed=$(./bin/verifcheck -list | tr '\n' ' ')
+claimed=$("$VC" -list | tr '\n' ' ')
 caught=""; report=""
 for p in $sel; do
   echo " $claimed " | grep -q " $p " || continue
-  out=$(VERIF_EVIDENCE_DIR="$ev" ./bin/verifcheck -repo "$wt" -verif /verif -property "$p" -tier quick 2>&1); rc=$?
+  out=$(VERIF_EVIDENCE_DIR="$ev" "$VC" -repo "$wt" -verif /verif -property "$p" -tier quick 2>&1); rc=$?
   tier=quick
   if [ $rc -eq 0 ] && [ "$p" = "$prop" ]; then
-    out=$(VERIF_EVIDENCE_DIR="$ev" ./bin/verifcheck -repo "$wt" -verif /verif -property "$p" -tier thorough 2>&1); rc=$?; tier=thorough
+    out=$(VERIF_EVIDENCE_DIR="$ev" "$VC" -repo "$wt" -verif /verif -property "$p" -tier thorough 2>&1); rc=$?; tier=thorough
   fi
   if [ $rc -ne 0 ]; then caught="$caught $p($tier)"; report="$report$(echo "$out" | grep -E "VIOLATED|UNDECIDED" | head -2 | cut -c1-300 | sed "s/^/[$p] /")
 "; fi
